@@ -790,6 +790,12 @@ impl RADAU {
                 if (x + hnew / quot1 - xend) * posneg >= 0.0 {
                     h = xend - x;
                     last = true;
+                    // x already is xend to rounding: the interval has been covered
+                    if 0.1 * h.abs() <= x.abs() * uround {
+                        h = hnew;
+                        status = Status::Success;
+                        break 'main;
+                    }
                 } else {
                     qt = hnew / h;
                     hhfac = h;
